@@ -185,8 +185,12 @@ def numSlots (p : Prog) : Nat :=
 def checkCommon (p : Prog) (sc : Scenario) (defaultConc : Nat) (o : Obs) : List Div :=
   let want := if p.wrap then numSlots p else 0
   (if o.evalorder != List.range want then [("evalorder", s!"evaluation order {o.evalorder} want 0..{want}-1")] else []) ++
-  (["beforefirststart", "samegoroutine", "count_ok"].flatMap fun k =>
+  (["beforefirststart", "count_ok"].flatMap fun k =>
     if o.evalinfo.contains (k ++ "=1") then [] else [("evalorder", s!"evalinfo {k} is not 1")]) ++
+  -- an argument expression evaluated by another goroutine than the caller's runs beside the user functions
+  -- (ownership: C12) and outside the prologue (C15)
+  (if o.evalinfo.contains "samegoroutine=1" then []
+   else [("evalgoroutine", "a directive argument was evaluated on a goroutine other than the one calling the directive")]) ++
   (let bound := match p.conc with
      | some _ => sc.conc.getD defaultConc
      | none => defaultConc
@@ -455,6 +459,12 @@ def checkStatic (p : Prog) (toks : List String) : List Div :=
   (if !kvB rest "typechecks" then [("static.typechecks", s!"pid {p.pid}")] else []) ++
   (if (kv rest "directives_left") != some "0" then [("static.directives", s!"pid {p.pid}: {kv rest "directives_left"} directive calls left")] else []) ++
   (if (kv rest "astdiff") != some "ok" then [("static.astdiff", s!"pid {p.pid}: {kv rest "astdiff"}")] else []) ++
+  -- the hoisted user expressions come first in the generated closure: no generated declaration is in scope
+  -- while they are evaluated (Text/Hygiene.lean); "na" = file not parsed
+  (match kv rest "hygiene" with
+   | some "ok" | some "na" => []
+   | some h => [("static.hygiene", s!"pid {p.pid}: {h}")]
+   | none => [("static.hygiene", s!"pid {p.pid}: missing")]) ++
   (if !kvB rest "deterministic" then [("static.deterministic", s!"pid {p.pid}")] else []) ++
   (if (kv rest "sourcemap_same") == some "0" then [("static.sourcemap", s!"pid {p.pid}")] else []) ++
   (if (kv rest "modifier_compiles") == some "0" then [("modifier", s!"pid {p.pid}: modifier-mode output does not compile")] else [])
